@@ -73,6 +73,14 @@ type boundSite struct {
 	lo   ssa.Value
 	hi   ssa.Value
 	kind string
+	at   *ssa.BasicBlock // when set: the block at whose end the bounds must hold (a phi edge's predecessor)
+}
+
+func (s boundSite) blk() *ssa.BasicBlock {
+	if s.at != nil {
+		return s.at
+	}
+	return s.ins.Block()
 }
 
 func boundSites(fn *ssa.Function) []boundSite {
@@ -249,7 +257,7 @@ func rootsOf(v ssa.Value, seen map[ssa.Value]bool, out *[]ssa.Value) {
 			}
 			return
 		}
-		if inlinableRepoCall(x) {
+		if inlinableRepoCall(x) && resultFromParams(x.Common().StaticCallee(), 0, 0) {
 			// the engine analyses the callee in context: its own length-relevant
 			// operands are the roots
 			for _, a := range x.Common().Args {
@@ -261,7 +269,7 @@ func rootsOf(v ssa.Value, seen map[ssa.Value]bool, out *[]ssa.Value) {
 		}
 		*out = append(*out, v)
 	case *ssa.Extract:
-		if c, ok := x.Tuple.(*ssa.Call); ok && inlinableRepoCall(c) {
+		if c, ok := x.Tuple.(*ssa.Call); ok && inlinableRepoCall(c) && resultFromParams(c.Common().StaticCallee(), x.Index, 0) {
 			for _, a := range c.Common().Args {
 				if isSliceOrString(a.Type()) {
 					rootsOf(a, seen, out)
@@ -273,6 +281,29 @@ func rootsOf(v ssa.Value, seen map[ssa.Value]bool, out *[]ssa.Value) {
 	default:
 		*out = append(*out, v)
 	}
+}
+
+// resultFromParams: the idx-th result of sc is built from its own parameters,
+// constants and fresh allocations only (so its length follows from the
+// arguments); otherwise the result itself is a root whose length is unknown.
+func resultFromParams(sc *ssa.Function, idx int, depth int) bool {
+	if depth > 3 {
+		return false
+	}
+	for _, b := range sc.Blocks {
+		ret, ok := b.Instrs[len(b.Instrs)-1].(*ssa.Return)
+		if !ok || idx >= len(ret.Results) {
+			continue
+		}
+		var roots []ssa.Value
+		rootsOf(ret.Results[idx], map[ssa.Value]bool{}, &roots)
+		for _, rt := range roots {
+			if _, isParam := rt.(*ssa.Parameter); !isParam {
+				return false
+			}
+		}
+	}
+	return true
 }
 
 func inlinableRepoCall(c *ssa.Call) bool {
@@ -320,6 +351,9 @@ func lengthClasses(root ssa.Value, rg map[*ssa.Global]string) ([]aval, string) {
 					}
 					return []aval{{k: kNil}, sliceLen(1), sliceLen(2), sliceLen(3)}, "strings.SplitN with non-constant n"
 				}
+				if how := splitAtLeastTwo(c, rg); how != "" {
+					return []aval{sliceLen(2), sliceLen(3), sliceLen(4), sliceLen(5)}, how
+				}
 				return []aval{sliceLen(1), sliceLen(2), sliceLen(3)}, "strings.Split has at least 1 element"
 			case "(*regexp.Regexp).FindStringSubmatch", "(*regexp.Regexp).SubexpNames", "(*regexp.Regexp).FindStringSubmatchIndex":
 				if pat, ok := regexOfValue(c.Common().Args[0], rg); ok {
@@ -343,6 +377,199 @@ func lengthClasses(root ssa.Value, rg map[*ssa.Global]string) ([]aval, string) {
 		return []aval{sliceLen(0), sliceLen(1), sliceLen(2), sliceLen(3)}, "string lengths 0..3"
 	}
 	return []aval{{k: kNil}, sliceLen(0), sliceLen(1), sliceLen(2), sliceLen(3)}, "length classes nil,0,1,2,3"
+}
+
+// splitAtLeastTwo: strings.Split(s[m[2k]:], sep) where m is the (non-nil)
+// FindStringSubmatchIndex of s under a constant pattern in which capture k is
+// mandatory and the text from its start to the end of the match always
+// contains sep: the split has at least two parts.
+func splitAtLeastTwo(c *ssa.Call, rg map[*ssa.Global]string) string {
+	args := c.Common().Args
+	if len(args) != 2 {
+		return ""
+	}
+	sepC, ok := args[1].(*ssa.Const)
+	if !ok || sepC.Value == nil || sepC.Value.Kind() != constant.String {
+		return ""
+	}
+	sep := constant.StringVal(sepC.Value)
+	if len([]rune(sep)) != 1 {
+		return ""
+	}
+	sl, ok := args[0].(*ssa.Slice)
+	if !ok || sl.Low == nil || sl.High != nil {
+		return ""
+	}
+	ld, ok := stripIntConv(sl.Low).(*ssa.UnOp)
+	if !ok || ld.Op != token.MUL {
+		return ""
+	}
+	ia, ok := ld.X.(*ssa.IndexAddr)
+	if !ok {
+		return ""
+	}
+	k, ok := ia.Index.(*ssa.Const)
+	if !ok || k.Value == nil {
+		return ""
+	}
+	m, ok := ia.X.(*ssa.Call)
+	if !ok || m.Common().StaticCallee() == nil || m.Common().StaticCallee().RelString(nil) != "(*regexp.Regexp).FindStringSubmatchIndex" {
+		return ""
+	}
+	pat, ok := regexOfValue(m.Common().Args[0], rg)
+	if !ok || !sameStringValue(m.Common().Args[1], sl.X) {
+		return ""
+	}
+	kv, _ := constant.Int64Val(k.Value)
+	if kv%2 != 0 {
+		return ""
+	}
+	if !suffixFromGroupMustContain(pat, int(kv)/2, []rune(sep)[0]) {
+		return ""
+	}
+	return fmt.Sprintf("strings.Split of the text from capture %d of the constant pattern to the end: every match contains %q after that point, so there are at least 2 parts", kv/2, sep)
+}
+
+// mustContain: every string matched by r contains ch.
+func mustContain(r *syntax.Regexp, ch rune) bool {
+	switch r.Op {
+	case syntax.OpLiteral:
+		if r.Flags&syntax.FoldCase != 0 {
+			return false
+		}
+		for _, x := range r.Rune {
+			if x == ch {
+				return true
+			}
+		}
+	case syntax.OpCharClass:
+		return len(r.Rune) == 2 && r.Rune[0] == ch && r.Rune[1] == ch
+	case syntax.OpCapture, syntax.OpPlus:
+		return mustContain(r.Sub[0], ch)
+	case syntax.OpRepeat:
+		return r.Min >= 1 && mustContain(r.Sub[0], ch)
+	case syntax.OpConcat:
+		for _, s := range r.Sub {
+			if mustContain(s, ch) {
+				return true
+			}
+		}
+	case syntax.OpAlternate:
+		for _, s := range r.Sub {
+			if !mustContain(s, ch) {
+				return false
+			}
+		}
+		return len(r.Sub) > 0
+	}
+	return false
+}
+
+// suffixFromGroupMustContain: capture n is mandatory in pat and, in every match,
+// the text from the start of capture n to the end of the match contains ch.
+func suffixFromGroupMustContain(pat string, n int, ch rune) bool {
+	re, err := syntax.Parse(pat, syntax.Perl)
+	if err != nil {
+		return false
+	}
+	// found: the capture lies (mandatorily) in r; contains: and ch surely follows its start within r
+	var walk func(r *syntax.Regexp) (found, contains bool)
+	walk = func(r *syntax.Regexp) (bool, bool) {
+		switch r.Op {
+		case syntax.OpCapture:
+			if r.Cap == n {
+				return true, mustContain(r.Sub[0], ch)
+			}
+			return walk(r.Sub[0])
+		case syntax.OpConcat:
+			for i, s := range r.Sub {
+				f, c := walk(s)
+				if !f {
+					continue
+				}
+				for _, t := range r.Sub[i+1:] {
+					if mustContain(t, ch) {
+						c = true
+					}
+				}
+				return true, c
+			}
+		}
+		return false, false
+	}
+	f, c := walk(re)
+	return f && c
+}
+
+// paramClasses: the length classes of a slice parameter of an unexported
+// function that is only ever called directly: the union of the classes of the
+// arguments at its call sites.
+func paramClasses(p *Program, prm *ssa.Parameter, rg map[*ssa.Global]string) ([]aval, string, bool) {
+	fn := prm.Parent()
+	if fn == nil || fn.Pkg == nil || fn.Object() == nil || fn.Object().Exported() || fn.Signature.Recv() != nil {
+		return nil, "", false
+	}
+	pi := -1
+	for i, q := range fn.Params {
+		if q == prm {
+			pi = i
+		}
+	}
+	if pi < 0 {
+		return nil, "", false
+	}
+	var out []aval
+	var notes []string
+	sites := 0
+	for _, g := range p.RepoFuncs() {
+		if g.Pkg != fn.Pkg {
+			continue
+		}
+		fns := []*ssa.Function{g}
+		fns = append(fns, g.AnonFuncs...)
+		for _, h := range fns {
+			for _, b := range h.Blocks {
+				for _, ins := range b.Instrs {
+					var ops [16]*ssa.Value
+					for _, op := range ins.Operands(ops[:0]) {
+						if op == nil || *op != ssa.Value(fn) {
+							continue
+						}
+						ci, isCall := ins.(ssa.CallInstruction)
+						if !isCall || ci.Common().Value != ssa.Value(fn) {
+							return nil, "", false // used as a value
+						}
+						if _, plain := ins.(*ssa.Call); !plain || pi >= len(ci.Common().Args) {
+							return nil, "", false
+						}
+						sites++
+						var roots []ssa.Value
+						rootsOf(ci.Common().Args[pi], map[ssa.Value]bool{}, &roots)
+						if len(roots) != 1 {
+							return nil, "", false
+						}
+						cl, note := lengthClasses(roots[0], rg)
+						notes = append(notes, note)
+						for _, c := range cl {
+							dup := false
+							for _, o := range out {
+								if eq(o, c) {
+									dup = true
+								}
+							}
+							if !dup {
+								out = append(out, c)
+							}
+						}
+					}
+				}
+			}
+		}
+	}
+	if sites == 0 {
+		return nil, "", false
+	}
+	return out, fmt.Sprintf("parameter of an unexported function with %d direct call site(s): %s", sites, strings.Join(notes, "; ")), true
 }
 
 // pan3Model: summaries of regexp methods whose results are constants of the pattern.
@@ -529,6 +756,28 @@ func lowerBoundNonNeg(v ssa.Value, depth int) bool {
 		return true
 	case *ssa.BinOp:
 		if x.Op == token.ADD {
+			// the lowered range index: phi(-1, this) + 1
+			if ph, ok := stripIntConv(x.X).(*ssa.Phi); ok {
+				if c, ok := x.Y.(*ssa.Const); ok && c.Value != nil && c.Value.Kind() == constant.Int && constant.Sign(c.Value) > 0 {
+					step, _ := constant.Int64Val(c.Value)
+					okAll := true
+					for _, e := range ph.Edges {
+						e = stripIntConv(e)
+						if e == ssa.Value(x) {
+							continue
+						}
+						if k, ok := e.(*ssa.Const); ok && k.Value != nil && k.Value.Kind() == constant.Int {
+							if v, exact := constant.Int64Val(k.Value); exact && v >= -step {
+								continue
+							}
+						}
+						okAll = false
+					}
+					if okAll {
+						return true
+					}
+				}
+			}
 			return lowerBoundNonNeg(x.X, depth+1) && lowerBoundNonNeg(x.Y, depth+1)
 		}
 	case *ssa.Call:
@@ -789,6 +1038,11 @@ func pan3Site(p *Program, r *RuleResult, s boundSite, rg map[*ssa.Global]string)
 	var classNotes []string
 	for i, rt := range roots {
 		cl, note := lengthClasses(rt, rg)
+		if prm, ok := rt.(*ssa.Parameter); ok {
+			if pc, pnote, ok := paramClasses(p, prm, rg); ok {
+				cl, note = pc, pnote
+			}
+		}
 		classes[i] = cl
 		classNotes = append(classNotes, note)
 	}
@@ -911,8 +1165,17 @@ func boundsKnown(res *result, s boundSite) bool {
 		return false
 	}
 	if s.kind == "index" {
-		_, ok := constInt(get(s.idx))
-		return ok
+		if _, ok := constInt(get(s.idx)); ok {
+			return true
+		}
+		// a non-negative index below a constant bound (dominating `idx < c`) that the
+		// operand's length in this class reaches
+		if n, ok := lenOf(base); ok && lowerBoundNonNeg(s.idx, 0) {
+			if ub, ok := constUpperBound(s); ok && ub <= int64(n) {
+				return true
+			}
+		}
+		return false
 	}
 	_, ok1 := constInt(get(s.lo))
 	ok2 := true
@@ -920,6 +1183,41 @@ func boundsKnown(res *result, s boundSite) bool {
 		_, ok2 = constInt(get(s.hi))
 	}
 	return ok1 && ok2
+}
+
+// constUpperBound: the index is (strictly) below a constant c on every path to
+// the site (dominating `idx < c` / `idx <= c-1`); returns c.
+func constUpperBound(s boundSite) (int64, bool) {
+	idx := stripIntConv(s.idx)
+	for _, b := range s.fn.Blocks {
+		ifi, ok := b.Instrs[len(b.Instrs)-1].(*ssa.If)
+		if !ok {
+			continue
+		}
+		cmp, ok := ifi.Cond.(*ssa.BinOp)
+		if !ok || !sameAccess(stripIntConv(cmp.X), idx) {
+			continue
+		}
+		k, ok := stripIntConv(cmp.Y).(*ssa.Const)
+		if !ok || k.Value == nil || k.Value.Kind() != constant.Int {
+			continue
+		}
+		c, exact := constant.Int64Val(k.Value)
+		if !exact {
+			continue
+		}
+		switch cmp.Op {
+		case token.LSS:
+		case token.LEQ:
+			c++
+		default:
+			continue
+		}
+		if edgeDominates(b, 0, s.ins.Block()) {
+			return c, true
+		}
+	}
+	return 0, false
 }
 
 // sliceWithin: x[lo:hi] with non-constant bounds: lo proved in [0,len] and hi
@@ -938,6 +1236,36 @@ func sliceWithin(s boundSite) (bool, string) {
 		notes = append(notes, fmt.Sprintf("%s: <=len proved=%v, >=0 proved=%v", name, up, lowb))
 	}
 	check("low", s.lo, true)
+	// a high bound chosen among alternatives (phi): each alternative is proved at the
+	// end of the block it comes from
+	if s.hi != nil && s.lo != nil && !isConstVal(s.lo) {
+		if ph, ok := stripIntConv(s.hi).(*ssa.Phi); ok && len(ph.Edges) == len(ph.Block().Preds) {
+			upLo, _ := valueWithinLen(s, s.lo)
+			for i, e := range ph.Edges {
+				se := s
+				se.at = ph.Block().Preds[i]
+				se.hi = e
+				if isLenOf(stripIntConv(e), s.base) {
+					if !upLo {
+						okAll = false
+						notes = append(notes, fmt.Sprintf("high alternative %d = len: low <= len not proved", i))
+					}
+					continue
+				}
+				if isConstVal(e) {
+					okAll = false
+					notes = append(notes, fmt.Sprintf("high alternative %d constant", i))
+					continue
+				}
+				up, lowb := valueWithinLen(se, e)
+				if !up || !lowb || !leqProved(se, s.lo, e) {
+					okAll = false
+					notes = append(notes, fmt.Sprintf("high alternative %d: <=len proved=%v, >=0 proved=%v, low<=high proved=%v", i, up, lowb, leqProved(se, s.lo, e)))
+				}
+			}
+			return okAll, strings.Join(notes, "; ")
+		}
+	}
 	check("high", s.hi, true)
 	// constant bounds mixed with variable ones need the SCCP result too; be conservative
 	if s.lo != nil && isConstVal(s.lo) && !isConstZero(s.lo) {
@@ -1009,23 +1337,23 @@ func valueWithinLen(s boundSite, v ssa.Value) (upper, lower bool) {
 			isLen := isLenOf(y, s.base)
 			switch {
 			case isLen && (op == token.LSS || op == token.LEQ):
-				if edgeDominates(b, 0, s.ins.Block()) {
+				if edgeDominates(b, 0, s.blk()) {
 					upper = true
 				}
 			case isLen && (op == token.GEQ || op == token.GTR):
-				if edgeDominates(b, 1, s.ins.Block()) {
+				if edgeDominates(b, 1, s.blk()) {
 					upper = true
 				}
 			case isConstZero(y) && (op == token.LSS || op == token.LEQ):
-				if edgeDominates(b, 1, s.ins.Block()) {
+				if edgeDominates(b, 1, s.blk()) {
 					lower = true
 				}
 			case isConstZero(y) && (op == token.GEQ || op == token.GTR):
-				if edgeDominates(b, 0, s.ins.Block()) {
+				if edgeDominates(b, 0, s.blk()) {
 					lower = true
 				}
 			case isConstMinusOne(y) && op == token.GTR:
-				if edgeDominates(b, 0, s.ins.Block()) {
+				if edgeDominates(b, 0, s.blk()) {
 					lower = true
 				}
 			}
